@@ -452,6 +452,16 @@ class BasisSineDVR(BasisSet):
         return f"BasisSineDVR(xi: {self.xi}, xf: {self.xf}, nbas: {self.nbas})"
 
     def op_mat(self, op: Union[Op, str]):
+        depth = self._recursion_flag
+        try:
+            return self._op_mat(op)
+        except BaseException:
+            # an exception (e.g. unsupported symbol) must not leave the recursion counter raised,
+            # otherwise every later call would skip the DVR rotation
+            self._recursion_flag = depth
+            raise
+
+    def _op_mat(self, op: Union[Op, str]):
         
         if not isinstance(op, Op):
             op = Op(op, None)
